@@ -501,3 +501,8 @@ __CPROVER_ensures(1 == 1)
     dropped=DROPPED + ['Node destructor (releases the bounded queue storage: not modelled, the node is freed as a whole)'], trusted=['operator delete = free'],
     assumes=['harness assumes: chain length within the bound, malloc succeeds'], allow_assume=True, min_obligations=10, no_crosscheck=True)
 UNITS.append(uq_dtor)
+
+# the unbounded queue's units underlie C03 / C08 as a whole (same reason as in units/bq.py)
+for u_ in UNITS:
+    if u_['name'] in ('UQ.handle_full', 'UQ.prepare_write', 'UQ.read_next', 'UQ.prepare_read', 'UQ.empty', 'UQ.finish_write', 'UQ.commit_write', 'UQ.finish_read', 'UQ.commit_read'):
+        u_['underlies'] = {'C03', 'C08'}
